@@ -232,6 +232,16 @@ fn file_state(path: &Path) -> String {
     }
 }
 
+/// `0.5+3.1/0` -> `0+3`; `!`, `?`, `e`, `-`, `p` unchanged; `c=…` keeps its tag
+fn keys_only(x: &str) -> String {
+    let (tag, body) = match x.strip_prefix("c=") { Some(b) => ("c=", b), None => ("", x) };
+    if body.contains('.') {
+        format!("{}{}", tag, body.split('+').map(|e| e.split('.').next().unwrap()).collect::<Vec<_>>().join("+"))
+    } else {
+        x.to_string()
+    }
+}
+
 // ------------------------------------------------------------------------------------------ gate
 
 #[derive(Default)]
@@ -588,15 +598,6 @@ impl Exec {
             if let Some(ed) = self.editor.as_mut() {
                 self.last_live = fmt_content(&keys().fold(ed.user_dict().entries()));
             }
-            let keys_only = |x: &str| -> String {
-                // `0.5+3.1/0` -> `0+3`; `!`, `?`, `e`, `-`, `p` unchanged; `c=…` keeps its tag
-                let (tag, body) = match x.strip_prefix("c=") { Some(b) => ("c=", b), None => ("", x) };
-                if body.contains('.') {
-                    format!("{}{}", tag, body.split('+').map(|e| e.split('.').next().unwrap()).collect::<Vec<_>>().join("+"))
-                } else {
-                    x.to_string()
-                }
-            };
             format!("{}:{}:{}:{}", ret, wr.map(pc_name).unwrap_or("-"), keys_only(&f), keys_only(&t))
         } else {
             format!("{}:~{}:{}:{}", ret, wr.map(pc_name).unwrap_or("-"), f, t)
@@ -1045,6 +1046,7 @@ struct Ctx {
     n_distinct: u64,
     n_timeouts: u64,
     n_fail: u64,
+    n_crash: u64,
     cover: BTreeMap<String, u64>,
     samples: u32,
 }
@@ -1118,11 +1120,11 @@ impl Ctx {
     }
 
     /// process death at the end of `plan` (which ends with `x`), in a child process
-    fn crash(&mut self, init: &str, plan: &[P]) {
+    fn crash(&mut self, ctx: &str, editor: bool, init: &str, plan: &[P]) {
         let dir = tempfile::tempdir().expect("tempdir");
         let exe = std::env::current_exe().unwrap();
         let outp = std::process::Command::new(exe)
-            .args(["--child", dir.path().to_str().unwrap(), init, &plan_text(plan)])
+            .args([if editor { "--child-ed" } else { "--child" }, dir.path().to_str().unwrap(), init, &plan_text(plan)])
             .output()
             .expect("child");
         self.n_run += 1;
@@ -1150,9 +1152,26 @@ impl Ctx {
         let mut r: Vec<String> = realised.split(',').filter(|s| !s.is_empty()).map(|s| s.to_string()).collect();
         let mut o: Vec<String> = obs.split(' ').filter(|s| !s.is_empty()).map(|s| s.to_string()).collect();
         r.push("x".into());
-        o.push(format!("X:{}:{}", f, t));
-        *self.cover.entry(format!("x|{}", o.iter().rev().nth(1).and_then(|p| p.split(':').nth(1)).unwrap_or("?"))).or_insert(0) += 1;
-        self.emit(init, &r, &o, &failures, false, &plan_text(plan));
+        // where the writer was when the process died (second field of the last observation)
+        let pc = o.last().and_then(|p| p.split(':').nth(1)).map(|h| h.trim_start_matches(|c: char| c == '0' || c == '1' || c == '~').to_string()).unwrap_or_else(|| "?".into());
+        let pc = if pc.is_empty() || pc == "-" { "none".to_string() } else { pc };
+        *self.cover.entry(format!("x|{}|{}", ctx, pc)).or_insert(0) += 1;
+        self.n_crash += 1;
+        if editor {
+            o.push(format!("X:{}:{}", keys_only(&f), keys_only(&t)));
+            let toks = r.join(",");
+            for fl in &failures {
+                self.n_fail += 1;
+                self.out.oracle_fail("C10", &fl.class, &format!("editor init={} schedule={} plan={} :: {}", init, toks, plan_text(plan), fl.what));
+            }
+            if self.seen.insert(format!("editor {} {}", init, toks)) {
+                self.n_distinct += 1;
+                self.out.rec(&format!("persist editor g{}j{} {} {} => {}", self.g, self.j, init, toks, o.join(" ")));
+            }
+        } else {
+            o.push(format!("X:{}:{}", f, t));
+            self.emit(init, &r, &o, &failures, false, &plan_text(plan));
+        }
     }
 }
 
@@ -1167,8 +1186,8 @@ fn probe_revive() -> u8 {
 
 fn main() {
     let args: Vec<String> = std::env::args().collect();
-    if args.len() >= 5 && args[1] == "--child" {
-        let mut ex = Exec::new(Path::new(&args[2]), &args[3], true);
+    if args.len() >= 5 && (args[1] == "--child" || args[1] == "--child-ed") {
+        let mut ex = Exec::new_tier(Path::new(&args[2]), &args[3], true, args[1] == "--child-ed");
         ex.run(&parse_plan(&args[4]));
         // the plan did not reach `x`
         ex.cleanup();
@@ -1177,7 +1196,7 @@ fn main() {
     let thorough = tier_is_thorough();
     let mut rng = Rng::new(seed_from_env());
     let mut cx = Ctx { out: Out::new(), fast: false, g: probe_revive(), j: 0, seen: HashSet::new(), n_run: 0, n_distinct: 0,
-        n_timeouts: 0, n_fail: 0, cover: BTreeMap::new(), samples: 0 };
+        n_timeouts: 0, n_fail: 0, n_crash: 0, cover: BTreeMap::new(), samples: 0 };
     // probe: does Drop join an in-flight writer first?
     {
         let dir = tempfile::tempdir().unwrap();
@@ -1192,10 +1211,11 @@ fn main() {
     if args.len() >= 4 && args[1] == "--one" {
         // replay of a single plan: persist --one <init> <plan>
         let plan = parse_plan(&args[3]);
-        if plan.iter().any(|t| matches!(t, P::Learn(..) | P::Unlearn(_) | P::Key)) {
+        let ed = plan.iter().any(|t| matches!(t, P::Learn(..) | P::Unlearn(_) | P::Key));
+        if plan.last() == Some(&P::Crash) {
+            cx.crash("replay", ed, &args[2], &plan)
+        } else if ed {
             cx.exec_editor(&args[2], &plan)
-        } else if plan.last() == Some(&P::Crash) {
-            cx.crash(&args[2], &plan)
         } else {
             cx.exec(&args[2], &plan)
         }
@@ -1324,27 +1344,47 @@ fn main() {
     }
 
     cx.fast = false;
-    // ---- 3. crash tier: the process dies with the writer parked at each progress point
-    let scen: Vec<(&str, Vec<P>, Vec<P>)> = vec![
-        ("e", vec![P::Upd(0, 1), P::Flush], vec![]),
-        ("0.7+2.5", vec![P::Rem(0), P::Add(1, 3), P::Flush], vec![]),
-        ("0.7+big600", vec![P::Upd(0, 1), P::Upd(100, 9), P::Rem(101), P::Flush], vec![]),
-        // second writer of a session, first one discarded
-        ("2.5", vec![P::Upd(0, 1), P::Flush, P::Upd(1, 2), P::W(9), P::Sync, P::Flush], vec![]),
-        // writer spawned by Drop
-        ("2.5", vec![P::Upd(0, 1), P::Close, P::D, P::D, P::D], vec![]),
-        // change while in flight, then dying inside Drop
-        ("e", vec![P::Upd(0, 1), P::Flush], vec![P::Upd(1, 2), P::Flush, P::Close, P::D]),
+    // ---- 3. crash tier: the process dies (`_exit` in a child) in every foreground context x every writer
+    // position: (context, editor tier, initial file, steps before the writer advances, steps after)
+    let scen: Vec<(&str, bool, &str, Vec<P>, Vec<P>)> = vec![
+        ("run-clean", false, "e", vec![P::Upd(0, 1), P::Flush], vec![]),
+        ("run-clean-nonempty", false, "0.7+2.5", vec![P::Rem(0), P::Add(1, 3), P::Flush], vec![]),
+        ("run-clean-bulk", false, "0.7+big600", vec![P::Upd(0, 1), P::Upd(100, 9), P::Rem(101), P::Flush], vec![]),
+        // changes accepted while the writer is in flight, never flushed
+        ("run-dirty", false, "2.5", vec![P::Upd(0, 1), P::Flush], vec![P::Upd(1, 2), P::Rem(2)]),
+        // … and a flush that is refused because the writer is still registered
+        ("run-refused-flush", false, "e", vec![P::Upd(0, 1), P::Flush], vec![P::Upd(1, 2), P::Flush]),
+        // reload / adoption attempts while in flight (the editor's reopen-after-change)
+        ("run-reopen", false, "2.5", vec![P::Upd(0, 1), P::Flush], vec![P::Sync, P::Upd(1, 2), P::Sync, P::Flush]),
+        // second writer of a session, the first one's result discarded
+        ("run-second-writer", false, "2.5", vec![P::Upd(0, 1), P::Flush, P::Upd(1, 2), P::W(9), P::Sync, P::Flush], vec![]),
+        // dying inside Drop: just entered, after its first part, with the writer Drop itself spawned
+        ("drop-entered", false, "e", vec![P::Upd(0, 1), P::Flush], vec![P::Upd(1, 2), P::Close]),
+        ("drop-part1", false, "e", vec![P::Upd(0, 1), P::Flush], vec![P::Upd(1, 2), P::Flush, P::Close, P::D]),
+        ("drop-own-writer", false, "2.5", vec![P::Upd(0, 1), P::Close, P::D, P::D, P::D], vec![]),
+        // second session over the files of the first
+        ("second-session", false, "2.5", vec![P::Upd(0, 1), P::Close, P::D, P::D, P::D, P::D, P::Open, P::Rem(2), P::Flush], vec![]),
+        // through a real Editor
+        ("editor-run", true, "e", vec![P::Learn(0, true), P::Key], vec![P::Learn(3, false)]),
+        ("editor-drop", true, "0.7+2.5", vec![P::Learn(0, true), P::Key], vec![P::Unlearn(2), P::Close]),
     ];
-    for (init, pre, post) in &scen {
+    for (ctx, ed, init, pre, post) in &scen {
+        if !thorough && t0.elapsed() > Duration::from_secs(110) {
+            cx.out.stat("quick_time_box_hit_in_crash_tier", ctx);
+            break;
+        }
         for n in 0..=STEPS {
             let mut p = pre.clone();
             if n > 0 { p.push(P::W(n)); }
             p.extend(post.iter().cloned());
             p.push(P::Crash);
-            cx.crash(init, &p);
+            cx.crash(ctx, *ed, init, &p);
         }
     }
+    cx.out.stat("crash_children", cx.n_crash);
+    let crash_states = cx.cover.keys().filter(|k| k.starts_with("x|")).count();
+    cx.out.stat("crash_states_distinct", crash_states);
+    cx.out.stat("crash_contexts", scen.len());
     // and bulk contents without a crash: every writer position, then a normal close
     for n in [0u32, 3, 6] {
         let mut p = vec![P::Upd(0, 1), P::Upd(100, 9), P::Rem(101), P::Flush];
